@@ -62,6 +62,9 @@ def decide(pid, tier, seed, reports, known, wall, write_replay, verbose=False):
             fn = r['fn']
             row = dict(function=fn, sha256=r.get('sha256'), lines=r.get('lines'), stmts_modelled=r.get('stmts_modelled'),
                        stmts_total=r.get('stmts_total'), paths=r.get('paths'), status=r['status'], canary=r.get('canary'))
+            row['assumed_contracts_used'] = r.get('assumed_used', [])
+            row['proved_callee_contracts_used'] = r.get('callee_contracts_used', [])
+            trusted.update(r.get('assumed_used', []))
             fn_rows.append(row)
             if r['status'] != 'ok':
                 undecided.append(dict(fn=fn, why=f"{r['status']}: {r.get('detail', '')}"))
